@@ -340,7 +340,7 @@ func (c *Ctx) enforceAssignments(rule string, enf *ssa.Function, fields []string
 	for _, net := range []string{"", "mainnet", "main", "MainNet", "MAINNET", "Main", "testnet", "test", "TestNet", "regnet", "regtest", "reg", "somethingelse"} {
 		env := Env{S: map[string]string{"net": net}}
 		res := ssau.AbsWalk(enf, ssau.AbsEnvFunc(func(i *ssa.If, visit int) (bool, bool) {
-			return syms.evalCond(i.Cond, env, visit, i.Block().Comment)
+			return syms.evalCond(i.Cond, env, visit, blockComment(i))
 		}))
 		key := fmt.Sprintf("%s|net=%q", enf.Name(), net)
 		if res.Unknown != nil || res.Ret == nil {
@@ -517,7 +517,7 @@ func runC32(c *Ctx) {
 		// every entry is examined: the outer loop is left only at its header (list exhausted) or by a failing return
 		for _, i := range ssau.Ifs(fz) {
 			b, ok := i.Cond.(*ssa.BinOp)
-			if !ok || b.Op != token.LSS || i.Block().Comment != "rangeindex.loop" || !isLenOf(func(v ssa.Value) bool { return paramNamed(v, "frozenAddresses") })(b.Y) {
+			if !ok || b.Op != token.LSS || blockComment(i) != "rangeindex.loop" || !isLenOf(func(v ssa.Value) bool { return paramNamed(v, "frozenAddresses") })(b.Y) {
 				continue
 			}
 			bad := c.earlyLoopExits(fz, i.Block())
